@@ -457,8 +457,34 @@ def run_impl(bdir, d, case):
 
 # --------------------------------------------------------------------------
 
+def corpus_cases():
+    """Fixed inputs that run first: the witnesses of Props/C15.lean (DESIGN §6-B)
+    and their well-behaved siblings."""
+    w2 = {"looms": [{"name": "n", "cpus": [(0, 0), (1, 1)],
+                     "procs": [{"pid": 1, "appid": 1, "rank": None, "nranks": None, "tids": [1, 2]}]}], "ties": False}
+    out = []
+
+    def mk(kind, c1, c2, expect, world=w2):
+        specs = base_specs(w2)
+        for s in specs:
+            s["x"] = -1
+        specs[0]["appid"] = 1
+        specs[0]["cpus"], specs[1]["cpus"] = c1, c2
+        out.append(Case("corpus", kind, specs, None, expect, world))
+
+    mk("corpus:ascending", [(0, 0), (1, 1)], None, "ok")
+    mk("corpus:descending", [(1, 1), (0, 0)], None, "ok")                 # wDesc
+    mk("corpus:split-ascending", [(0, 0)], [(1, 1)], "ok")
+    mk("corpus:split-descending", [(1, 1)], [(0, 0)], "ok")
+    mk("corpus:duplicated", [(0, 0), (1, 1), (0, 0)], [(1, 1), (0, 0)], "ok")
+    mk("corpus:index-two-phyids", [(0, 0), (0, 5)], None, "reject", None)      # wTwoPhy
+    mk("corpus:index-two-phyids-high", [(1, 0), (1, 5)], None, "reject", None)
+    mk("corpus:phyid-two-indexes", [(0, 0), (1, 0)], None, "reject", None)
+    return out
+
+
 def gen_cases(r, tier, res):
-    cases = []
+    cases = corpus_cases()
     nworlds = 150 if tier == "quick" else 1500
     for g in range(nworlds):
         world = gen_world(r, res)
